@@ -141,14 +141,17 @@ def handleGrp (vtoks : List String) (impl : String) : String :=
     let secs := (impl.splitOn " ; ").map (fun x => x.trimAscii.toString)
     let race := (sect secs "RACE") == some "1"
     match (sect secs "ROOT").bind unhex? with
-    | none => s!"OUT ? || C04={if baseClean then "FAIL" else "na"} C18=FAIL"
+    | none => if race then "OUT ? || C04=na C18=FAIL" else s!"OUT ? || C04={if baseClean then "FAIL" else "na"} C18=FAIL"
     | some root =>
       let itoks := words ((sect secs "OUT").getD "")
       let leaks := (words ((sect secs "LEAK").getD "")).map (fun w => w.toNat?.getD 1)
       let paired : List (Variant × Option String) := vs.zipIdx.map fun (v, i) => (v, itoks[i]?)
       let mtoks := paired.map fun (v, t) => expectTok root v t
       let model := "OUT " ++ " ".intercalate mtoks
-      if itoks.length != vs.length || leaks.length != vs.length then
+      if race then
+        -- the race detector stopped the process at the first report: no outcome was observed
+        s!"{model} || C04=na C18=FAIL"
+      else if itoks.length != vs.length || leaks.length != vs.length then
         s!"{model} || C04={if baseClean then "FAIL" else "na"} C18=FAIL"
       else
         let runs := zipRuns root 0 vs itoks leaks
